@@ -1020,7 +1020,8 @@ class Collector:
                       "steps": 0, "kind": {}, "learner": {}, "why": {}, "ntasks": {},
                       "multi_completion_runs": 0, "out_of_order_runs": 0, "runs_with_failures": 0,
                       "runs_with_retries": 0, "runs_with_exhausted_point": 0, "cancelled_runs": 0,
-                      "interrupted_inside_submit_runs": 0,
+                      "interrupted_inside_submit_runs": 0, "coroutine_with_async_cleanup_on_cancel_runs": 0,
+                      "coroutine_with_async_cleanup_runs_stopped_with_outstanding": 0,
                       "stopped_with_outstanding_futures": 0, "late_results_at_shutdown": 0,
                       "oracle_failures": 0}
         self.n = 0
@@ -1053,6 +1054,9 @@ class Collector:
         st["runs_with_exhausted_point"] += ft["exhausted"]
         st["cancelled_runs"] += ft["cancelled"]
         st["interrupted_inside_submit_runs"] += ft["submit_interrupt"]
+        slow = bool(rec.spec.get("slow_cancel")) and rec.spec["kind"] == "async_coro"
+        st["coroutine_with_async_cleanup_on_cancel_runs"] += slow
+        st["coroutine_with_async_cleanup_runs_stopped_with_outstanding"] += slow and bool(rec.ctx.releases)
         st["stopped_with_outstanding_futures"] += ft["outstanding"]
         st["late_results_at_shutdown"] += ft["late_result"]
         chk.note_case((json.dumps(rec.spec, sort_keys=True), rec.choices), self.nontrivial(rec, ft))
